@@ -131,6 +131,19 @@ Section ResolverProofs.
       rewrite <- A in I. apply in_map_iff in I as [[d0 doc] [E I]]. cbn in E. subst. eauto.
     - destruct (collect_err _ _ C) as [d [I R]]. exists d, e. split; [apply Io; exact I|exact R].
   Qed.
+  (* a failing resolve_multiple reports the error of the FIRST failure in completion order *)
+  Theorem multiple_error_is_first_failure order e : collect order = inr e ->
+    exists pre d post, order = pre ++ d :: post
+      /\ (forall x, In x pre -> exists doc, fst (resolve x) = ROk doc) /\ fst (resolve d) = RErr e.
+  Proof.
+    induction order as [|d r IH]; cbn [Resolver.collect]; [discriminate|].
+    destruct (fst (resolve d)) as [doc|e'] eqn:R.
+    - destruct (collect r) as [l|e''] eqn:C; [discriminate|]. intros H. injection H as <-.
+      destruct (IH eq_refl) as [pre [d0 [post [E [A B]]]]].
+      exists (d :: pre), d0, post. split; [rewrite E; reflexivity|]. split; [|exact B].
+      intros x [<-|I]; [exists doc; exact R|apply A; exact I].
+    - intros H. injection H as <-. exists [], d, r. split; [reflexivity|]. split; [intros x []|exact R].
+  Qed.
 End ResolverProofs.
 
 (* attach_handler histories: the handler in force for a method is the one attached LAST for it;
